@@ -131,6 +131,9 @@ type c02Case struct {
 	State    string     `json:"state"`
 	Fault    c02Fault   `json:"fault"`
 	Path     []c02Fault `json:"path_from_initial"`
+	// Chain: the fault session (with one message of each side deferred by the other) and a clean session
+	// after it run on the same two long-lived directory handlers, from the initial state
+	Chain bool `json:"same_handlers_for_both_sessions,omitempty"`
 }
 
 type c02Ctx struct {
@@ -255,6 +258,41 @@ func (c *c02Ctx) step(s c02State, f c02Fault) c02Result {
 	bx := c.boxes(s)
 	defer bx[0].Close()
 	defer bx[1].Close()
+	return c.stepOn(bx, s, f)
+}
+
+// chain runs, from the initial state and on the same two directory handlers (an application that
+// keeps its handler for the life of the process): a session under fault f in which each side defers
+// the other's first message, then a clean session without deferrals - which must reach the goal.
+func (c *c02Ctx) chain(f c02Fault) (class, detail string, nontriv bool) {
+	s := c.initial()
+	bx := c.boxes(s)
+	defer bx[0].Close()
+	defer bx[1].Close()
+	for i := 0; i < 2; i++ {
+		if len(c.msgs[1-i]) > 0 {
+			bx[i].(*dirBox).deferMID = map[string]bool{c.msgs[1-i][0].MID(): true}
+		}
+	}
+	r1 := c.stepOn(bx, s, f)
+	if r1.Class != "" {
+		return r1.Class, "first session (fault, deferrals): " + r1.Detail, false
+	}
+	for i := 0; i < 2; i++ {
+		bx[i].(*dirBox).reset()
+	}
+	r2 := c.stepOn(bx, r1.Next, c02Fault{Kind: "clean"})
+	if r2.Class != "" {
+		return r2.Class, "clean session on the same handlers after " + r1.Next.key() + ": " + r2.Detail, r1.NonTriv
+	}
+	if ok, why := c.goalReached(r2.Next); !ok {
+		return "goal-not-reached-with-long-lived-handler", "clean session on the same handlers after a session with deferrals (state " + r1.Next.key() + "): " + why, r1.NonTriv
+	}
+	return "", "", r1.NonTriv
+}
+
+// stepOn runs one session on the given mailboxes, which are in state s.
+func (c *c02Ctx) stepOn(bx [2]c02Box, s c02State, f c02Fault) c02Result {
 	if f.Kind == "storage" {
 		bx[f.Side].FailAt(f.J)
 	}
@@ -450,6 +488,11 @@ func C02(args []string) {
 				continue
 			}
 			ctx := newC02Ctx(sc)
+			if f.Case.Chain {
+				cl, d, _ := ctx.chain(f.Case.Fault)
+				fmt.Printf("scenario %s, fault session with deferrals then clean session on the same handlers, fault %+v: class=%q %s\n", sc.Name, f.Case.Fault, cl, d)
+				continue
+			}
 			s := ctx.initial()
 			for _, pf := range f.Case.Path {
 				s = ctx.step(s, pf).Next
@@ -482,9 +525,9 @@ func C02(args []string) {
 				cr := ctx.step(n.s, c02Fault{Kind: "clean"})
 				r.Evals.Add(1)
 				if cr.Class != "" {
-					r.Violation("C02|"+cr.Class, fmt.Sprintf("scenario %s, clean session from state %s: %s", sc.Name, n.s.key(), cr.Detail), c02Case{sc.Name, n.s.key(), c02Fault{Kind: "clean"}, n.path})
+					r.Violation("C02|"+cr.Class, fmt.Sprintf("scenario %s, clean session from state %s: %s", sc.Name, n.s.key(), cr.Detail), c02Case{Scenario: sc.Name, State: n.s.key(), Fault: c02Fault{Kind: "clean"}, Path: n.path})
 				} else if ok, why := ctx.goalReached(cr.Next); !ok {
-					r.Violation("C02|goal-not-reached-by-clean-session", fmt.Sprintf("scenario %s, clean session from state %s: %s", sc.Name, n.s.key(), why), c02Case{sc.Name, n.s.key(), c02Fault{Kind: "clean"}, n.path})
+					r.Violation("C02|goal-not-reached-by-clean-session", fmt.Sprintf("scenario %s, clean session from state %s: %s", sc.Name, n.s.key(), why), c02Case{Scenario: sc.Name, State: n.s.key(), Fault: c02Fault{Kind: "clean"}, Path: n.path})
 				}
 				fs := ctx.faults(n.s, r.Thorough(), len(n.path) == 0)
 				core.ParallelFor(len(fs), func(i int) {
@@ -494,7 +537,7 @@ func C02(args []string) {
 						r.Nontrivial.Add(1)
 					}
 					if res.Class != "" {
-						r.Violation("C02|"+res.Class, fmt.Sprintf("scenario %s state %s fault %+v: %s", sc.Name, n.s.key(), fs[i], res.Detail), c02Case{sc.Name, n.s.key(), fs[i], n.path})
+						r.Violation("C02|"+res.Class, fmt.Sprintf("scenario %s state %s fault %+v: %s", sc.Name, n.s.key(), fs[i], res.Detail), c02Case{Scenario: sc.Name, State: n.s.key(), Fault: fs[i], Path: n.path})
 						return
 					}
 					k := res.Next.key()
@@ -509,6 +552,21 @@ func C02(args []string) {
 			sort.Slice(next, func(i, j int) bool { return next[i].s.key() < next[j].s.key() })
 			frontier = next
 			depth++
+		}
+		if sc.Dir {
+			// long-lived handlers: what a handler remembers of one session must not leak into the next
+			fs := append([]c02Fault{{Kind: "clean"}}, ctx.faults(init, r.Thorough(), false)...)
+			core.ParallelFor(len(fs), func(i int) {
+				cl, d, nt := ctx.chain(fs[i])
+				r.Evals.Add(1)
+				r.Add("long_lived_handler_chains", 1)
+				if nt {
+					r.Nontrivial.Add(1)
+				}
+				if cl != "" {
+					r.Violation("C02|"+cl, fmt.Sprintf("scenario %s, fault %+v: %s", sc.Name, fs[i], d), c02Case{Scenario: sc.Name, State: init.key(), Fault: fs[i], Chain: true})
+				}
+			})
 		}
 		totalStates += int64(len(seen))
 		r.Sample(map[string]any{"scenario": sc.Name, "reachable_states": len(seen), "bfs_depth": depth})
